@@ -10,6 +10,11 @@
 // the reference table below (the table is written from RFC 1035 section 3.3,
 // RFC 1034 section 3.6 (CH A), RFC 2782 and RFC 3597 section 6/7 - not from
 // the match in Rdata::equals).
+//
+// Measured and left out because they exceed 13 GB: fully symbolic SRV pairs
+// (9,9), fully symbolic SOA pairs (22,22) and (24,24), three NS RDATA through
+// RdataSetOwned::insert.  SRV and SOA are covered by skeleton pairs (concrete
+// structure, symbolic contents) instead, the NS set by from_iter over two.
 
 use super::*;
 use crate::kani_common::*;
@@ -487,7 +492,7 @@ fn c19_ns_pair_0_x() {
     kani::cover!(!s.equal, "RDATA of different lengths are unequal");
 }
 
-// @harness props=C19 tier=thorough mem=4 t=1200 fn="Rdata::equals,helpers::names_equal,helpers::test_n_name_fields,Name::try_from_uncompressed,<Name as PartialEq>::eq,<Label as PartialEq>::eq"
+// @harness props=C19 tier=thorough mem=4 t=1800 fn="Rdata::equals,helpers::names_equal,helpers::test_n_name_fields,Name::try_from_uncompressed,<Name as PartialEq>::eq,<Label as PartialEq>::eq"
 //   bound="type NS, any class; RDATA lengths (1,1), all octet values; unwind 4"
 //   sym="a:[u8;1], b:[u8;1], class:u16" stubs="eq_ignore_ascii_case"
 #[kani::proof]
@@ -499,7 +504,7 @@ fn c19_ns_pair_1_1() {
     kani::cover!(!s.equal, "distinct one-octet RDATA are unequal");
 }
 
-// @harness props=C19 tier=quick mem=6 t=1200 fn="Rdata::equals,helpers::names_equal,helpers::test_n_name_fields,Name::try_from_uncompressed,<Name as PartialEq>::eq,<Label as PartialEq>::eq"
+// @harness props=C19 tier=quick mem=6 t=1800 fn="Rdata::equals,helpers::names_equal,helpers::test_n_name_fields,Name::try_from_uncompressed,<Name as PartialEq>::eq,<Label as PartialEq>::eq"
 //   bound="type NS, any class; RDATA lengths (3,3), all octet values, both orders; unwind 5"
 //   sym="a:[u8;3], b:[u8;3], class:u16" stubs="eq_ignore_ascii_case"
 #[kani::proof]
@@ -511,7 +516,7 @@ fn c19_ns_pair_3_3() {
     kani::cover!(!s.equal && s.same_up_to_case, "unequal RDATA that differ only in ASCII case (malformed, or case outside a name)");
 }
 
-// @harness props=C19 tier=quick mem=7 t=1500 fn="Rdata::equals,helpers::names_equal,helpers::test_n_name_fields,Name::try_from_uncompressed,<Name as PartialEq>::eq,<Label as PartialEq>::eq"
+// @harness props=C19 tier=quick mem=8 t=2400 fn="Rdata::equals,helpers::names_equal,helpers::test_n_name_fields,Name::try_from_uncompressed,<Name as PartialEq>::eq,<Label as PartialEq>::eq"
 //   bound="type NS, any class; RDATA lengths (3,4), all octet values, both orders; unwind 6"
 //   sym="a:[u8;3], b:[u8;4], class:u16" stubs="eq_ignore_ascii_case"
 #[kani::proof]
@@ -522,7 +527,7 @@ fn c19_ns_pair_3_4() {
     kani::cover!(!s.equal, "RDATA of different lengths are unequal");
 }
 
-// @harness props=C19 tier=thorough mem=6 t=1800 fn="Rdata::equals,helpers::names_equal,helpers::test_n_name_fields,Name::try_from_uncompressed,<Name as PartialEq>::eq,<Label as PartialEq>::eq"
+// @harness props=C19 tier=thorough mem=8 t=3000 fn="Rdata::equals,helpers::names_equal,helpers::test_n_name_fields,Name::try_from_uncompressed,<Name as PartialEq>::eq,<Label as PartialEq>::eq"
 //   bound="type NS, any class; RDATA lengths (1,3), all octet values, both orders; unwind 5"
 //   sym="a:[u8;1], b:[u8;3], class:u16" stubs="eq_ignore_ascii_case"
 #[kani::proof]
@@ -533,7 +538,7 @@ fn c19_ns_pair_1_3() {
     kani::cover!(!s.equal, "RDATA of different lengths are unequal");
 }
 
-// @harness props=C19 tier=thorough mem=6 t=1800 fn="Rdata::equals,helpers::names_equal,helpers::test_n_name_fields,Name::try_from_uncompressed,<Name as PartialEq>::eq,<Label as PartialEq>::eq"
+// @harness props=C19 tier=thorough mem=8 t=3000 fn="Rdata::equals,helpers::names_equal,helpers::test_n_name_fields,Name::try_from_uncompressed,<Name as PartialEq>::eq,<Label as PartialEq>::eq"
 //   bound="type NS, any class; RDATA lengths (1,4), all octet values, both orders; unwind 6"
 //   sym="a:[u8;1], b:[u8;4], class:u16" stubs="eq_ignore_ascii_case"
 #[kani::proof]
@@ -544,7 +549,7 @@ fn c19_ns_pair_1_4() {
     kani::cover!(!s.equal, "RDATA of different lengths are unequal");
 }
 
-// @harness props=C19 tier=thorough mem=7 t=2400 fn="Rdata::equals,helpers::names_equal,helpers::test_n_name_fields,Name::try_from_uncompressed,<Name as PartialEq>::eq,<Label as PartialEq>::eq"
+// @harness props=C19 tier=thorough mem=10 t=3600 fn="Rdata::equals,helpers::names_equal,helpers::test_n_name_fields,Name::try_from_uncompressed,<Name as PartialEq>::eq,<Label as PartialEq>::eq"
 //   bound="type NS, any class; RDATA lengths (1,5), all octet values, both orders; unwind 7"
 //   sym="a:[u8;1], b:[u8;5], class:u16" stubs="eq_ignore_ascii_case"
 #[kani::proof]
@@ -555,7 +560,7 @@ fn c19_ns_pair_1_5() {
     kani::cover!(!s.equal, "RDATA of different lengths are unequal");
 }
 
-// @harness props=C19 tier=thorough mem=8 t=2400 fn="Rdata::equals,helpers::names_equal,helpers::test_n_name_fields,Name::try_from_uncompressed,<Name as PartialEq>::eq,<Label as PartialEq>::eq"
+// @harness props=C19 tier=thorough mem=12 t=4800 fn="Rdata::equals,helpers::names_equal,helpers::test_n_name_fields,Name::try_from_uncompressed,<Name as PartialEq>::eq,<Label as PartialEq>::eq"
 //   bound="type NS, any class; RDATA lengths (3,5), all octet values, both orders; unwind 7"
 //   sym="a:[u8;3], b:[u8;5], class:u16" stubs="eq_ignore_ascii_case"
 #[kani::proof]
@@ -566,7 +571,7 @@ fn c19_ns_pair_3_5() {
     kani::cover!(!s.equal, "RDATA of different lengths are unequal");
 }
 
-// @harness props=C19 tier=thorough mem=8 t=2400 fn="Rdata::equals,helpers::names_equal,helpers::test_n_name_fields,Name::try_from_uncompressed,<Name as PartialEq>::eq,<Label as PartialEq>::eq"
+// @harness props=C19 tier=thorough mem=8 t=3000 fn="Rdata::equals,helpers::names_equal,helpers::test_n_name_fields,Name::try_from_uncompressed,<Name as PartialEq>::eq,<Label as PartialEq>::eq"
 //   bound="type NS, any class; RDATA lengths (4,4), all octet values, both orders; unwind 6"
 //   sym="a:[u8;4], b:[u8;4], class:u16" stubs="eq_ignore_ascii_case"
 #[kani::proof]
@@ -578,7 +583,7 @@ fn c19_ns_pair_4_4() {
     kani::cover!(!s.equal && s.same_up_to_case, "unequal RDATA that differ only in ASCII case (malformed, or case outside a name)");
 }
 
-// @harness props=C19 tier=thorough mem=9 t=3000 fn="Rdata::equals,helpers::names_equal,helpers::test_n_name_fields,Name::try_from_uncompressed,<Name as PartialEq>::eq,<Label as PartialEq>::eq"
+// @harness props=C19 tier=thorough mem=12 t=4800 fn="Rdata::equals,helpers::names_equal,helpers::test_n_name_fields,Name::try_from_uncompressed,<Name as PartialEq>::eq,<Label as PartialEq>::eq"
 //   bound="type NS, any class; RDATA lengths (4,5), all octet values, both orders; unwind 7"
 //   sym="a:[u8;4], b:[u8;5], class:u16" stubs="eq_ignore_ascii_case"
 #[kani::proof]
@@ -589,7 +594,7 @@ fn c19_ns_pair_4_5() {
     kani::cover!(!s.equal, "RDATA of different lengths are unequal");
 }
 
-// @harness props=C19 tier=thorough mem=10 t=3600 fn="Rdata::equals,helpers::names_equal,helpers::test_n_name_fields,Name::try_from_uncompressed,<Name as PartialEq>::eq,<Label as PartialEq>::eq"
+// @harness props=C19 tier=thorough mem=12 t=5400 fn="Rdata::equals,helpers::names_equal,helpers::test_n_name_fields,Name::try_from_uncompressed,<Name as PartialEq>::eq,<Label as PartialEq>::eq"
 //   bound="type NS, any class; RDATA lengths (5,5), all octet values, both orders; unwind 7"
 //   sym="a:[u8;5], b:[u8;5], class:u16" stubs="eq_ignore_ascii_case"
 #[kani::proof]
@@ -603,7 +608,7 @@ fn c19_ns_pair_5_5() {
 
 // ---- the other single-name types: (3,3) and (3,4) = name vs name+junk ------
 
-// @harness props=C19 tier=thorough mem=7 t=2400 fn="Rdata::equals,helpers::names_equal,helpers::test_n_name_fields,Name::try_from_uncompressed,<Name as PartialEq>::eq,<Label as PartialEq>::eq"
+// @harness props=C19 tier=thorough mem=8 t=3000 fn="Rdata::equals,helpers::names_equal,helpers::test_n_name_fields,Name::try_from_uncompressed,<Name as PartialEq>::eq,<Label as PartialEq>::eq"
 //   bound="type MD (3), any class; RDATA lengths (3,3) and (3,4) in the order (a,b), all octet values; unwind 6"
 //   sym="a:[u8;3], b:[u8;3]; a2:[u8;3], b2:[u8;4]; class:u16" stubs="eq_ignore_ascii_case"
 #[kani::proof]
@@ -617,7 +622,7 @@ fn c19_md_pairs() {
     kani::cover!(!s.equal, "RDATA of different lengths are unequal");
 }
 
-// @harness props=C19 tier=thorough mem=7 t=2400 fn="Rdata::equals,helpers::names_equal,helpers::test_n_name_fields,Name::try_from_uncompressed,<Name as PartialEq>::eq,<Label as PartialEq>::eq"
+// @harness props=C19 tier=thorough mem=8 t=3000 fn="Rdata::equals,helpers::names_equal,helpers::test_n_name_fields,Name::try_from_uncompressed,<Name as PartialEq>::eq,<Label as PartialEq>::eq"
 //   bound="type MF (4), any class; RDATA lengths (3,3) and (3,4) in the order (a,b), all octet values; unwind 6"
 //   sym="a:[u8;3], b:[u8;3]; a2:[u8;3], b2:[u8;4]; class:u16" stubs="eq_ignore_ascii_case"
 #[kani::proof]
@@ -631,7 +636,7 @@ fn c19_mf_pairs() {
     kani::cover!(!s.equal, "RDATA of different lengths are unequal");
 }
 
-// @harness props=C19 tier=thorough mem=7 t=2400 fn="Rdata::equals,helpers::names_equal,helpers::test_n_name_fields,Name::try_from_uncompressed,<Name as PartialEq>::eq,<Label as PartialEq>::eq"
+// @harness props=C19 tier=thorough mem=8 t=3000 fn="Rdata::equals,helpers::names_equal,helpers::test_n_name_fields,Name::try_from_uncompressed,<Name as PartialEq>::eq,<Label as PartialEq>::eq"
 //   bound="type CNAME (5), any class; RDATA lengths (3,3) and (3,4) in the order (a,b), all octet values; unwind 6"
 //   sym="a:[u8;3], b:[u8;3]; a2:[u8;3], b2:[u8;4]; class:u16" stubs="eq_ignore_ascii_case"
 #[kani::proof]
@@ -645,7 +650,7 @@ fn c19_cname_pairs() {
     kani::cover!(!s.equal, "RDATA of different lengths are unequal");
 }
 
-// @harness props=C19 tier=thorough mem=7 t=2400 fn="Rdata::equals,helpers::names_equal,helpers::test_n_name_fields,Name::try_from_uncompressed,<Name as PartialEq>::eq,<Label as PartialEq>::eq"
+// @harness props=C19 tier=thorough mem=8 t=3000 fn="Rdata::equals,helpers::names_equal,helpers::test_n_name_fields,Name::try_from_uncompressed,<Name as PartialEq>::eq,<Label as PartialEq>::eq"
 //   bound="type MB (7), any class; RDATA lengths (3,3) and (3,4) in the order (a,b), all octet values; unwind 6"
 //   sym="a:[u8;3], b:[u8;3]; a2:[u8;3], b2:[u8;4]; class:u16" stubs="eq_ignore_ascii_case"
 #[kani::proof]
@@ -659,7 +664,7 @@ fn c19_mb_pairs() {
     kani::cover!(!s.equal, "RDATA of different lengths are unequal");
 }
 
-// @harness props=C19 tier=thorough mem=7 t=2400 fn="Rdata::equals,helpers::names_equal,helpers::test_n_name_fields,Name::try_from_uncompressed,<Name as PartialEq>::eq,<Label as PartialEq>::eq"
+// @harness props=C19 tier=thorough mem=8 t=3000 fn="Rdata::equals,helpers::names_equal,helpers::test_n_name_fields,Name::try_from_uncompressed,<Name as PartialEq>::eq,<Label as PartialEq>::eq"
 //   bound="type MG (8), any class; RDATA lengths (3,3) and (3,4) in the order (a,b), all octet values; unwind 6"
 //   sym="a:[u8;3], b:[u8;3]; a2:[u8;3], b2:[u8;4]; class:u16" stubs="eq_ignore_ascii_case"
 #[kani::proof]
@@ -673,7 +678,7 @@ fn c19_mg_pairs() {
     kani::cover!(!s.equal, "RDATA of different lengths are unequal");
 }
 
-// @harness props=C19 tier=thorough mem=7 t=2400 fn="Rdata::equals,helpers::names_equal,helpers::test_n_name_fields,Name::try_from_uncompressed,<Name as PartialEq>::eq,<Label as PartialEq>::eq"
+// @harness props=C19 tier=thorough mem=8 t=3000 fn="Rdata::equals,helpers::names_equal,helpers::test_n_name_fields,Name::try_from_uncompressed,<Name as PartialEq>::eq,<Label as PartialEq>::eq"
 //   bound="type MR (9), any class; RDATA lengths (3,3) and (3,4) in the order (a,b), all octet values; unwind 6"
 //   sym="a:[u8;3], b:[u8;3]; a2:[u8;3], b2:[u8;4]; class:u16" stubs="eq_ignore_ascii_case"
 #[kani::proof]
@@ -687,7 +692,7 @@ fn c19_mr_pairs() {
     kani::cover!(!s.equal, "RDATA of different lengths are unequal");
 }
 
-// @harness props=C19 tier=thorough mem=7 t=2400 fn="Rdata::equals,helpers::names_equal,helpers::test_n_name_fields,Name::try_from_uncompressed,<Name as PartialEq>::eq,<Label as PartialEq>::eq"
+// @harness props=C19 tier=thorough mem=8 t=3000 fn="Rdata::equals,helpers::names_equal,helpers::test_n_name_fields,Name::try_from_uncompressed,<Name as PartialEq>::eq,<Label as PartialEq>::eq"
 //   bound="type PTR (12), any class; RDATA lengths (3,3) and (3,4) in the order (a,b), all octet values; unwind 6"
 //   sym="a:[u8;3], b:[u8;3]; a2:[u8;3], b2:[u8;4]; class:u16" stubs="eq_ignore_ascii_case"
 #[kani::proof]
@@ -703,7 +708,7 @@ fn c19_ptr_pairs() {
 
 // ---- type MX (15): u16 preference + name ----
 
-// @harness props=C19 tier=thorough mem=8 t=2400 fn="Rdata::equals,Rdata::equals_as_mx,helpers::names_equal,helpers::test_n_name_fields"
+// @harness props=C19 tier=thorough mem=7 t=3000 fn="Rdata::equals,Rdata::equals_as_mx,helpers::names_equal,helpers::test_n_name_fields"
 //   bound="type MX (15): u16 preference + name, any class; RDATA lengths (5,5) in the order (a,b), all octet values; unwind 7"
 //   sym="a:[u8;5], b:[u8;5], class:u16" stubs="eq_ignore_ascii_case"
 #[kani::proof]
@@ -733,18 +738,6 @@ fn c19_mx_pair_short() {
 
 // ---- type SRV (33): 6 octets + name ----
 
-// @harness props=C19 tier=thorough mem=8 t=2400 fn="Rdata::equals,Rdata::equals_as_in_srv,helpers::names_equal,helpers::test_n_name_fields"
-//   bound="type SRV (33): 6 octets + name, class IN; RDATA lengths (9,9) in the order (a,b), all octet values; unwind 11"
-//   sym="a:[u8;9], b:[u8;9]" stubs="eq_ignore_ascii_case"
-#[kani::proof]
-#[kani::unwind(11)]
-#[kani::stub(<[u8]>::eq_ignore_ascii_case, eq_ic_model)]
-fn c19_srv_pair_9_9() {
-    let s = pair_one_way::<9, 9>(IN, 33);
-    kani::cover!(s.equal && !s.same_octets, "equal RDATA whose octets differ (case-insensitive name match)");
-    kani::cover!(!s.equal && s.same_up_to_case, "unequal RDATA that differ only in ASCII case (malformed, or case outside a name)");
-}
-
 // @harness props=C19 tier=thorough mem=4 t=1200 fn="Rdata::equals,Rdata::equals_as_in_srv,helpers::names_equal,helpers::test_n_name_fields"
 //   bound="type SRV (33): 6 octets + name, class IN; RDATA lengths (5,5) (5,6) (6,6) (9,10) (too short for a name, or different lengths), all octet values, both orders; unwind 12"
 //   sym="pairs of [u8;LA],[u8;LB]" stubs="eq_ignore_ascii_case"
@@ -762,7 +755,7 @@ fn c19_srv_pair_short() {
 
 // ---- type A (1) in class CH: name + 16-bit address ----
 
-// @harness props=C19 tier=thorough mem=8 t=2400 fn="Rdata::equals,Rdata::equals_as_ch_a,helpers::test_n_name_fields"
+// @harness props=C19 tier=thorough mem=7 t=3000 fn="Rdata::equals,Rdata::equals_as_ch_a,helpers::test_n_name_fields"
 //   bound="type A (1) in class CH: name + 16-bit address, class CH; RDATA lengths (5,5) in the order (a,b), all octet values; unwind 7"
 //   sym="a:[u8;5], b:[u8;5]" stubs="eq_ignore_ascii_case"
 #[kani::proof]
@@ -789,7 +782,7 @@ fn c19_ch_a_pair_short() {
 
 // ---- type MINFO (14): two names ----
 
-// @harness props=C19 tier=thorough mem=8 t=2400 fn="Rdata::equals,Rdata::equals_as_minfo,helpers::test_n_name_fields"
+// @harness props=C19 tier=thorough mem=8 t=3000 fn="Rdata::equals,Rdata::equals_as_minfo,helpers::test_n_name_fields"
 //   bound="type MINFO (14): two names, any class; RDATA lengths (4,4) in the order (a,b), all octet values; unwind 6"
 //   sym="a:[u8;4], b:[u8;4], class:u16" stubs="eq_ignore_ascii_case"
 #[kani::proof]
@@ -816,7 +809,7 @@ fn c19_minfo_pair_short() {
 
 // ---- skeleton pairs: SOA, and longer names ---------------------------------
 
-// @harness props=C19 tier=thorough mem=5 t=1800 fn="Rdata::equals,Rdata::equals_as_soa,helpers::test_n_name_fields"
+// @harness props=C19 tier=thorough mem=5 t=2400 fn="Rdata::equals,Rdata::equals_as_soa,helpers::test_n_name_fields"
 //   bound="type SOA, any class; both RDATA = 1-octet-label name, root name, 20 octets (24 octets, well formed); symbolic label contents, fixed-field and junk octets; both orders, reflexivity; unwind 26"
 //   sym="content octets" stubs="eq_ignore_ascii_case"
 #[kani::proof]
@@ -830,7 +823,7 @@ fn c19_soa_skeleton_wf() {
     kani::cover!(!s.equal, "unequal RDATA");
 }
 
-// @harness props=C19 tier=thorough mem=4 t=1200 fn="Rdata::equals,Rdata::equals_as_soa,helpers::test_n_name_fields"
+// @harness props=C19 tier=thorough mem=5 t=2400 fn="Rdata::equals,Rdata::equals_as_soa,helpers::test_n_name_fields"
 //   bound="type SOA, any class; a = 1-octet-label name, root, 20 octets; b = root, 1-octet-label name, 20 octets (both 24 octets, well formed, names differ); symbolic label contents, fixed-field and junk octets; both orders, reflexivity; unwind 26"
 //   sym="content octets" stubs="eq_ignore_ascii_case"
 #[kani::proof]
@@ -843,7 +836,7 @@ fn c19_soa_skeleton_split() {
     kani::cover!(!s.equal, "unequal RDATA");
 }
 
-// @harness props=C19 tier=thorough mem=4 t=1200 fn="Rdata::equals,Rdata::equals_as_soa,helpers::test_n_name_fields"
+// @harness props=C19 tier=thorough mem=5 t=2400 fn="Rdata::equals,Rdata::equals_as_soa,helpers::test_n_name_fields"
 //   bound="type SOA, any class; a = two 1-octet-label names + 18 octets (24 octets, malformed: fixed part too short); b = the same shape; symbolic label contents, fixed-field and junk octets; both orders, reflexivity; unwind 26"
 //   sym="content octets" stubs="eq_ignore_ascii_case"
 #[kani::proof]
@@ -857,7 +850,7 @@ fn c19_soa_skeleton_short() {
     kani::cover!(s.equal, "identical malformed SOA RDATA are equal");
 }
 
-// @harness props=C19 tier=thorough mem=4 t=1200 fn="Rdata::equals,Rdata::equals_as_minfo,helpers::test_n_name_fields"
+// @harness props=C19 tier=thorough mem=5 t=2400 fn="Rdata::equals,Rdata::equals_as_minfo,helpers::test_n_name_fields"
 //   bound="type MINFO, any class; both RDATA = two 1-octet-label names (6 octets); symbolic label contents, fixed-field and junk octets; both orders, reflexivity; unwind 8"
 //   sym="content octets" stubs="eq_ignore_ascii_case"
 #[kani::proof]
@@ -871,7 +864,7 @@ fn c19_minfo_skeleton_6_6() {
     kani::cover!(!s.equal, "unequal RDATA");
 }
 
-// @harness props=C19 tier=thorough mem=4 t=1200 fn="Rdata::equals,helpers::names_equal,helpers::test_n_name_fields,Name::try_from_uncompressed,<Name as PartialEq>::eq,<Label as PartialEq>::eq"
+// @harness props=C19 tier=thorough mem=5 t=2400 fn="Rdata::equals,helpers::names_equal,helpers::test_n_name_fields,Name::try_from_uncompressed,<Name as PartialEq>::eq,<Label as PartialEq>::eq"
 //   bound="type NS, any class; both RDATA = a name of two 3-octet labels (9 octets); symbolic label contents, fixed-field and junk octets; both orders, reflexivity; unwind 11"
 //   sym="content octets" stubs="eq_ignore_ascii_case"
 #[kani::proof]
@@ -885,7 +878,7 @@ fn c19_ns_skeleton_9_9() {
     kani::cover!(!s.equal, "unequal RDATA");
 }
 
-// @harness props=C19 tier=thorough mem=4 t=1200 fn="Rdata::equals,Rdata::equals_as_in_srv,helpers::names_equal,helpers::test_n_name_fields"
+// @harness props=C19 tier=thorough mem=5 t=2400 fn="Rdata::equals,Rdata::equals_as_in_srv,helpers::names_equal,helpers::test_n_name_fields"
 //   bound="type SRV class IN; both RDATA = 6 fixed octets + a name of two 3-octet labels (15 octets); symbolic label contents, fixed-field and junk octets; both orders, reflexivity; unwind 17"
 //   sym="content octets" stubs="eq_ignore_ascii_case"
 #[kani::proof]
@@ -947,7 +940,7 @@ fn c19_other_types_real() {
 
 // ---- transitivity -----------------------------------------------------------
 
-// @harness props=C19 tier=thorough mem=8 t=1800 fn="Rdata::equals,helpers::names_equal,helpers::test_n_name_fields,Name::try_from_uncompressed,<Name as PartialEq>::eq,<Label as PartialEq>::eq"
+// @harness props=C19 tier=thorough mem=8 t=3000 fn="Rdata::equals,helpers::names_equal,helpers::test_n_name_fields,Name::try_from_uncompressed,<Name as PartialEq>::eq,<Label as PartialEq>::eq"
 //   bound="type NS, any class; three RDATA of lengths (3,3,3), all octet values; unwind 5"
 //   sym="a,b,c:[u8;3], class:u16" stubs="eq_ignore_ascii_case"
 #[kani::proof]
@@ -995,7 +988,7 @@ fn c19_set_a_from_iter() {
     kani::cover!(k2, "second is new");
 }
 
-// @harness props=C19 tier=quick mem=4 t=900 fn="RdataSetOwned::from_iter,RdataSetOwned::insert,<RdataSetOwned as From<&Rdata>>::from,RdataSet::iter,<rdata_set::Iter as Iterator>::next,Rdata::equals"
+// @harness props=C19 tier=quick mem=3 t=900 fn="RdataSetOwned::from_iter,RdataSetOwned::insert,<RdataSetOwned as From<&Rdata>>::from,RdataSet::iter,<rdata_set::Iter as Iterator>::next,Rdata::equals"
 //   bound="class IN type A; three RDATA of 4 octets, all octet values; from_iter; unwind 6"
 //   sym="r1,r2,r3:[u8;4]"
 #[kani::proof]
@@ -1006,7 +999,7 @@ fn c19_set_a_from_iter3() {
     kani::cover!(k2 && !k3, "third duplicates an earlier member");
 }
 
-// @harness props=C19 tier=quick mem=4 t=900 fn="RdataSetOwned::from_iter,RdataSetOwned::insert,<RdataSetOwned as From<&Rdata>>::from,RdataSet::iter,<rdata_set::Iter as Iterator>::next,Rdata::equals"
+// @harness props=C19 tier=quick mem=3 t=900 fn="RdataSetOwned::from_iter,RdataSetOwned::insert,<RdataSetOwned as From<&Rdata>>::from,RdataSet::iter,<rdata_set::Iter as Iterator>::next,Rdata::equals"
 //   bound="class IN type A; three RDATA of 4 octets, all octet values; From + insert, insert return values; unwind 6"
 //   sym="r1,r2,r3:[u8;4]"
 #[kani::proof]
@@ -1017,7 +1010,7 @@ fn c19_set_a_insert() {
     kani::cover!(k2 && !k3, "third duplicates an earlier member");
 }
 
-// @harness props=C19 tier=thorough mem=7 t=1800 fn="RdataSetOwned::from_iter,RdataSetOwned::insert,<RdataSetOwned as From<&Rdata>>::from,RdataSet::iter,<rdata_set::Iter as Iterator>::next,Rdata::equals,Rdata::equals,helpers::names_equal,helpers::test_n_name_fields,Name::try_from_uncompressed,<Name as PartialEq>::eq,<Label as PartialEq>::eq"
+// @harness props=C19 tier=thorough mem=7 t=2400 fn="RdataSetOwned::from_iter,RdataSetOwned::insert,<RdataSetOwned as From<&Rdata>>::from,RdataSet::iter,<rdata_set::Iter as Iterator>::next,Rdata::equals,Rdata::equals,helpers::names_equal,helpers::test_n_name_fields,Name::try_from_uncompressed,<Name as PartialEq>::eq,<Label as PartialEq>::eq"
 //   bound="class IN type NS; two RDATA of lengths (3,3), all octet values; from_iter; unwind 7"
 //   sym="r1,r2:[u8;3]" stubs="eq_ignore_ascii_case"
 #[kani::proof]
@@ -1029,7 +1022,7 @@ fn c19_set_ns_from_iter_3_3() {
     kani::cover!(k2, "second is new");
 }
 
-// @harness props=C19 tier=thorough mem=8 t=1800 fn="RdataSetOwned::from_iter,RdataSetOwned::insert,<RdataSetOwned as From<&Rdata>>::from,RdataSet::iter,<rdata_set::Iter as Iterator>::next,Rdata::equals,Rdata::equals,helpers::names_equal,helpers::test_n_name_fields,Name::try_from_uncompressed,<Name as PartialEq>::eq,<Label as PartialEq>::eq"
+// @harness props=C19 tier=thorough mem=8 t=2400 fn="RdataSetOwned::from_iter,RdataSetOwned::insert,<RdataSetOwned as From<&Rdata>>::from,RdataSet::iter,<rdata_set::Iter as Iterator>::next,Rdata::equals,Rdata::equals,helpers::names_equal,helpers::test_n_name_fields,Name::try_from_uncompressed,<Name as PartialEq>::eq,<Label as PartialEq>::eq"
 //   bound="class IN type NS; two RDATA of lengths (4,3) (name+junk, then the name), all octet values; from_iter; unwind 7"
 //   sym="r1:[u8;4], r2:[u8;3]" stubs="eq_ignore_ascii_case"
 #[kani::proof]
@@ -1038,16 +1031,4 @@ fn c19_set_ns_from_iter_3_3() {
 fn c19_set_ns_from_iter_4_3() {
     let k2 = set2_from_iter::<4, 3>(IN, 2);
     kani::cover!(k2, "a name after name+junk is new");
-}
-
-// @harness props=C19 tier=thorough mem=10 t=2400 fn="RdataSetOwned::from_iter,RdataSetOwned::insert,<RdataSetOwned as From<&Rdata>>::from,RdataSet::iter,<rdata_set::Iter as Iterator>::next,Rdata::equals,Rdata::equals,helpers::names_equal,helpers::test_n_name_fields,Name::try_from_uncompressed,<Name as PartialEq>::eq,<Label as PartialEq>::eq"
-//   bound="class IN type NS; three RDATA of lengths (3,3,3), all octet values; From + insert, insert return values; unwind 7"
-//   sym="r1,r2,r3:[u8;3]" stubs="eq_ignore_ascii_case"
-#[kani::proof]
-#[kani::unwind(7)]
-#[kani::stub(<[u8]>::eq_ignore_ascii_case, eq_ic_model)]
-fn c19_set_ns_insert_3_3_3() {
-    let (k2, k3) = set3::<3, 3, 3, false>(IN, 2);
-    kani::cover!(!k2 && k3, "second is a duplicate, third is new");
-    kani::cover!(k2 && !k3, "third duplicates an earlier member");
 }
